@@ -59,6 +59,11 @@ SimPair f_ret_struct(long a);
 void f_void(void);
 unsigned long f_many(int a0, int a1, int a2, int a3, int a4, int a5, int a6, int a7, int a8, int a9, int a10, unsigned a11);
 unsigned long f_u(unsigned long ul, size_t z, unsigned long long ull, unsigned short us);
+short f_rs(short v);
+unsigned char f_ruc(unsigned char v, signed char w);
+long long f_rll(long long v, unsigned v2);
+bool f_rb(bool v);
+float f_rf(float v);
 // real C library (noop static / dylib)
 int g_lib_id(void);
 long g_add3(long a, int b, unsigned short c);
@@ -76,9 +81,15 @@ enum FnId
   FN_VOID,
   FN_MANY,
   FN_U,
+  FN_RS,
+  FN_RUC,
+  FN_RLL,
+  FN_RB,
+  FN_RF,
   FN_COUNT
 };
-static const char* kFnName[] = { "f_ints", "f_fp", "f_enum", "f_ptrs", "f_fn", "f_struct", "f_ret_struct", "f_void", "f_many", "f_u" };
+static const char* kFnName[] = { "f_ints", "f_fp", "f_enum", "f_ptrs", "f_fn", "f_struct", "f_ret_struct", "f_void", "f_many", "f_u",
+                                 "f_rs", "f_ruc", "f_rll", "f_rb", "f_rf" };
 
 struct GuestRec
 {
@@ -175,6 +186,34 @@ struct G
     grec(FN_U, LIB, { ul, z, ull, us });
     return (uint32_t)g_result_bits;
   }
+  static int16_t rs(int16_t v)
+  {
+    grec(FN_RS, LIB, { (uint64_t)(int64_t)v });
+    return (int16_t)g_result_bits;
+  }
+  static unsigned char ruc(unsigned char v, signed char w)
+  {
+    grec(FN_RUC, LIB, { v, (uint64_t)(int64_t)w });
+    return (unsigned char)g_result_bits;
+  }
+  static int64_t rll(int64_t v, uint32_t v2)
+  {
+    grec(FN_RLL, LIB, { (uint64_t)v, v2 });
+    return (int64_t)g_result_bits;
+  }
+  static bool rb(bool v)
+  {
+    grec(FN_RB, LIB, { (uint64_t)v });
+    return (g_result_bits & 1) != 0;
+  }
+  static float rf(float v)
+  {
+    grec(FN_RF, LIB, { fbits(v) });
+    float r;
+    uint32_t b = (uint32_t)g_result_bits;
+    memcpy(&r, &b, 4);
+    return r;
+  }
 };
 template<int LIB>
 static std::vector<Sym> make_lib()
@@ -183,7 +222,10 @@ static std::vector<Sym> make_lib()
                          { "f_enum", (void*)&G<LIB>::en },       { "f_ptrs", (void*)&G<LIB>::ptrs },
                          { "f_fn", (void*)&G<LIB>::fn },         { "f_struct", (void*)&G<LIB>::st },
                          { "f_ret_struct", (void*)&G<LIB>::ret_st }, { "f_void", (void*)&G<LIB>::vd },
-                         { "f_many", (void*)&G<LIB>::many },     { "f_u", (void*)&G<LIB>::u } };
+                         { "f_many", (void*)&G<LIB>::many },     { "f_u", (void*)&G<LIB>::u },
+                         { "f_rs", (void*)&G<LIB>::rs },         { "f_ruc", (void*)&G<LIB>::ruc },
+                         { "f_rll", (void*)&G<LIB>::rll },       { "f_rb", (void*)&G<LIB>::rb },
+                         { "f_rf", (void*)&G<LIB>::rf } };
   if (LIB == 1)
     std::reverse(v.begin(), v.end()); // same names, different table indices
   return v;
@@ -214,10 +256,11 @@ enum Kind
   D_CREATE,
   N_INVOKE,
   I_LOOKUP_FAIL,
+  I_SMALL,
   K_COUNT
 };
 static const char* kKind[] = { "ints",   "fp",     "enum", "ptrs",    "fn",     "struct",    "ret_struct",   "void",        "many",
-                               "u",      "addr",   "destroy", "create", "dylib_invoke", "dylib_destroy", "dylib_create", "noop_invoke", "lookup_fails" };
+                               "u",      "addr",   "destroy", "create", "dylib_invoke", "dylib_destroy", "dylib_create", "noop_invoke", "lookup_fails", "small_types" };
 static_assert(sizeof(kKind) / sizeof(kKind[0]) == K_COUNT);
 
 typedef __int128 i128;
@@ -256,7 +299,7 @@ struct InvokeWorld : World
     int nsbx = (int)r.range(1, 3);
     p.cfg = { nsbx, r.chance(1, 2) };
     int n = (int)r.range(4, thorough ? 50 : 30);
-    std::vector<unsigned> w = { 10, 4, 4, 6, 8, 5, 5, 4, 4, 8, 8, 3, 4, 6, 2, 3, 2, 5 };
+    std::vector<unsigned> w = { 10, 4, 4, 6, 8, 5, 5, 4, 4, 8, 8, 3, 4, 6, 2, 3, 2, 5, 9 };
     for (auto& x : w)
       if (r.chance(1, 6))
         x = 0;
@@ -658,6 +701,81 @@ struct InvokeWorld : World
       C->violate("C11", "wrong_result@many", "result");
   }
 
+  // functions over the remaining scalar types, as argument and as result: short, unsigned char, signed char,
+  // long long, unsigned, bool, float
+  void op_small(SbxM& m, const Op& op)
+  {
+    Rng r((uint64_t)op.a[2]);
+    int which = (int)((uint64_t)op.a[4] % 5);
+    bool wrapped = (op.a[1] & 1) != 0;
+    g_result_bits = (uint64_t)op.a[3];
+    size_t before = g_glog.size();
+    Expect e;
+    Outcome o = OK;
+    bool result_ok = true;
+    switch (which) {
+      case 0: {
+        short v = (short)pick_int(r, 16, true);
+        e.args = { (uint64_t)(int64_t)v };
+        short got = 0;
+        o = attempt([&] { got = wrapped ? m.sb->invoke_sandbox_function(f_rs, TT<short>(v)).UNSAFE_unverified() : m.sb->invoke_sandbox_function(f_rs, v).UNSAFE_unverified(); });
+        if (judge(m, FN_RS, o, before, e, "small_types"))
+          result_ok = got == (short)(int16_t)g_result_bits;
+        break;
+      }
+      case 1: {
+        unsigned char v = (unsigned char)pick_int(r, 8, false);
+        signed char w = (signed char)pick_int(r, 8, true);
+        e.args = { v, (uint64_t)(int64_t)w };
+        unsigned char got = 0;
+        o = attempt([&] {
+          got = wrapped ? m.sb->invoke_sandbox_function(f_ruc, TT<unsigned char>(v), TT<signed char>(w).to_opaque()).UNSAFE_unverified()
+                        : m.sb->invoke_sandbox_function(f_ruc, v, w).UNSAFE_unverified();
+        });
+        if (judge(m, FN_RUC, o, before, e, "small_types"))
+          result_ok = got == (unsigned char)g_result_bits;
+        break;
+      }
+      case 2: {
+        long long v = (long long)pick_int(r, 64, true);
+        unsigned v2 = (unsigned)pick_int(r, 32, false);
+        e.args = { (uint64_t)v, v2 };
+        long long got = 0;
+        o = attempt([&] {
+          got = wrapped ? m.sb->invoke_sandbox_function(f_rll, TT<long long>(v), TT<unsigned>(v2)).UNSAFE_unverified()
+                        : m.sb->invoke_sandbox_function(f_rll, v, v2).UNSAFE_unverified();
+        });
+        if (judge(m, FN_RLL, o, before, e, "small_types"))
+          result_ok = got == (long long)g_result_bits;
+        break;
+      }
+      case 3: {
+        bool v = (op.a[2] & 1) != 0;
+        e.args = { (uint64_t)v };
+        bool got = false;
+        o = attempt([&] { got = wrapped ? m.sb->invoke_sandbox_function(f_rb, TT<bool>(v)).UNSAFE_unverified() : m.sb->invoke_sandbox_function(f_rb, v).UNSAFE_unverified(); });
+        if (judge(m, FN_RB, o, before, e, "small_types"))
+          result_ok = got == ((g_result_bits & 1) != 0);
+        break;
+      }
+      default: {
+        static const float fs[] = { 0.0f, -0.0f, 1.5f, -3.25e30f, 1e-40f, 3.4e38f };
+        float v = fs[(uint64_t)op.a[2] % 6];
+        uint32_t wb = (uint32_t)fbits(fs[(uint64_t)op.a[3] % 6]);
+        g_result_bits = wb;
+        e.args = { fbits(v) };
+        float got = 0;
+        o = attempt([&] { got = wrapped ? m.sb->invoke_sandbox_function(f_rf, TT<float>(v)).UNSAFE_unverified() : m.sb->invoke_sandbox_function(f_rf, v).UNSAFE_unverified(); });
+        if (judge(m, FN_RF, o, before, e, "small_types"))
+          result_ok = fbits(got) == wb;
+        break;
+      }
+    }
+    C->ev("small_types %d wrapped=%d -> %s", which, (int)wrapped, oname(o));
+    if (!result_ok && !C->stop)
+      C->violate("C11", "wrong_result@small_types", "result of scalar type #%d does not equal the reference back-conversion of what the guest returned", which);
+  }
+
   void sim_create(SbxM& m, int lib)
   {
     Outcome o = attempt([&] { m.sb->create_sandbox(lib); });
@@ -753,6 +871,10 @@ struct InvokeWorld : World
           break;
         case I_U:
           op_u(m, op);
+          break;
+        case I_SMALL:
+          if (m.created)
+            op_small(m, op);
           break;
         case A_ADDR: {
           if (!m.created)
